@@ -363,6 +363,18 @@ def _subgroups_fn(tree):
     if len(tels) != 1 or "dataclass_type = _get_dataclass_type_from_callable(subgroup_value, caller_frame=caller_frame)" not in unparse(tels[0]):
         raise Unrecognised("subgroups(): dataclass type of a callable entry")
     _expect(unparse(lb[2]), "subgroup_dataclass_types[subgroup_key] = dataclass_type", "subgroups(): type table")
+    # the dataclass of a callable entry: the class itself; a partial of a class -> that class, a partial of anything else ->
+    # whatever its function gives (a function: its return annotation)
+    g = find_def(tree, "_get_dataclass_type_from_callable")
+    gb = clean(g.body)
+    gt = [unparse(x) for x in gb]
+    if not gt or gt[0] != "if is_dataclass_type(dataclass_fn):\n    return dataclass_fn":
+        raise Unrecognised("_get_dataclass_type_from_callable: a dataclass type is its own answer")
+    parts = [x for x in gb if isinstance(x, ast.If) and unparse(x.test) == "isinstance(dataclass_fn, functools.partial)"]
+    if len(parts) != 1 or [unparse(x) for x in clean(parts[0].body)] != [
+            "if is_dataclass_type(dataclass_fn.func):\n    return dataclass_fn.func",
+            "return _get_dataclass_type_from_callable(dataclass_fn=dataclass_fn.func, caller_frame=caller_frame)"]:
+        raise Unrecognised("_get_dataclass_type_from_callable: the functools.partial arm")
     # what is stored as the default
     st = has("if default is not MISSING:\n    if is_dataclass_instance(default):")
     want = (
